@@ -14,6 +14,7 @@ import (
 	"encoding/json"
 	"fmt"
 	"hash/crc32"
+	"hash/fnv"
 	"math/rand"
 	"path/filepath"
 	"sort"
@@ -58,6 +59,9 @@ type runReq struct {
 	Corrs  []corrReq `json:"corrs"`
 	Plain  bool      `json:"plain"`
 	Unlock bool      `json:"unlocked"`
+	// not read by the driver: how Cuts was described to the trace specification
+	CutEvery int   `json:"cutEvery,omitempty"`
+	CutAt    []int `json:"cutAt,omitempty"`
 }
 
 type readRes struct {
@@ -721,8 +725,12 @@ func runMC(c *core.Ctx, pl *pool, st *stats, m mcCfg, nworkers int) error {
 		wg.Add(1)
 		go func(w int) {
 			defer wg.Done()
-			rnd := rand.New(rand.NewSource(c.Seed*1000003 + int64(w)*7919 + int64(len(m.name))))
 			for raw := range ch {
+				// the open choices of a scenario depend on the seed and on the scenario only,
+				// not on which worker happens to pick it up
+				hh := fnv.New64a()
+				hh.Write(raw)
+				rnd := rand.New(rand.NewSource(c.Seed*1000003 ^ int64(hh.Sum64()>>1)))
 				emu.Lock()
 				stop := firstErr != nil
 				emu.Unlock()
@@ -855,6 +863,9 @@ func runC35(c *core.Ctx) error {
 		return err
 	}
 	defer pl.close()
+	if c.Replay != "" {
+		return replayFile(c, pl)
+	}
 
 	// the spec's protocol constants are the code's
 	var consts map[string]float64
@@ -889,7 +900,7 @@ func runC35(c *core.Ctx) error {
 		cfgs = append(cfgs, mcCfg{name: "exhaustive-1", maxPkts: 1, shapes: allShapes, cryptos: allCryptos,
 			everyK: []int{1, 2, 3, 5, 7, 11, 13, 16, 17}, singleCuts: "all", corrEveryK: []int{0, 1, 16}, lenMasks: []int{1, 2, 8, 16, 64, 255}, padKs: []int{1, 3, 4, 5},
 			coverage: true, all: true, workers: 6})
-		cfgs = append(cfgs, mcCfg{name: "exhaustive-2", maxPkts: 2, shapes: []int{1000, 1003, 1016, 1040, 3008, 4008}, cryptos: []int{1, 11, 12},
+		cfgs = append(cfgs, mcCfg{name: "exhaustive-2", maxPkts: 2, shapes: []int{1000, 1003, 1016, 1040, 3008, 4008}, cryptos: []int{0, 1, 11, 12},
 			everyK: []int{1, 7, 16}, singleCuts: "class", corrEveryK: []int{0}, lenMasks: []int{1, 16}, padKs: []int{3, 4}, all: true, workers: 8})
 		cfgs = append(cfgs, mcCfg{name: "sampled-3", maxPkts: 3, shapes: allShapes, cryptos: allCryptos,
 			everyK: []int{1, 3, 5, 16, 17}, singleCuts: "all", corrEveryK: []int{0, 1}, lenMasks: []int{1, 16, 255},
